@@ -3,7 +3,9 @@
    cflib Param / _ParamUpdater / dispatcher running against the simulated device.
 
    Trace object  [id, cfg, ev]; cfg as in ParamProtoProps plus default, stored0; events:
-     step  [a, u, op | n]   a scheduler grant / device action = one design-spec action (binding only)
+     step  [a, u, op | n | i]  a scheduler grant / device action = one design-spec action (binding only);
+                            Tick (the virtual clock advances to the next deadline) and DispIdle (the dispatcher's
+                            1 s poll returns nothing) are stuttering steps of the design spec
      call  [rid, u, k, p, v]            an API call starts            (user thread)
      issue [rid, chan, data]            request handed to the updater's FIFO (inside call rid)
      ret   [rid, exc]                   the call returned / raised
@@ -13,7 +15,8 @@
      ntf   [chan, data]                 the device emitted an unsolicited value-changed packet
      dup   [chan, data, w]              the link delivered a second copy of the answer to request w
      rx    [chan, data]                 the dispatcher starts dispatching a port-2 packet
-     upd   [cb, p, arg, cache, get]     update callback cb ran (argument, Param.values, get_value)
+     upd   [cb, p, arg, cache, get, ops] update callback cb ran (argument, Param.values, get_value; ops = the
+                                        registrations it added / removed through the API while running)
      cb    [rid, pay]                   the reply callback given to call rid ran
      ext   [p, dev, lib]                after connecting: extended type the device answered for p, and
                                         whether the library marked p persistent
@@ -33,10 +36,10 @@ CONSTANT Bug
 Traces == JsonDeserialize(IOEnv.TRACE_FILE)
 
 VARIABLES tid, l,
-          mcalls, missued, mwire, mdown, mrxs, mgots, bad, badAt,       \* monitor
+          mcalls, missued, mwire, mdown, mrxs, mgots, mregs, bad, badAt,   \* monitor (mregs: registered update callbacks)
           conf, confAt,                                                 \* conformance verdict
           cf, ust, ucur, oneShots, reqQ, upc, cur, waitLock, lockPat, replyCb, dcb, devq, dval, dstored, inq,
-          dpc, snap, dpk, cache, nextRid, nnotif, ndup, calls, issued, wire, down, rxs, gots   \* design spec
+          dpc, snap, dpk, cache, regs, nextRid, nnotif, ndup, calls, issued, wire, down, rxs, gots   \* design spec
 
 T == Traces[tid]
 Ev == T.ev[l]
@@ -54,12 +57,15 @@ D == INSTANCE ParamProto
 P == INSTANCE ParamProtoProps
 
 specvars == <<cf, ust, ucur, oneShots, reqQ, upc, cur, waitLock, lockPat, replyCb, dcb, devq, dval, dstored, inq,
-              dpc, snap, dpk, cache, nextRid, nnotif, ndup, calls, issued, wire, down, rxs, gots>>
-monvars == <<mcalls, missued, mwire, mdown, mrxs, mgots>>
+              dpc, snap, dpk, cache, regs, nextRid, nnotif, ndup, calls, issued, wire, down, rxs, gots>>
+monvars == <<mcalls, missued, mwire, mdown, mrxs, mgots, mregs>>
+
+Reg0(c) == SelectSeq([i \in DOMAIN c.updcbs |-> c.updcbs[i].id], LAMBDA id : P!CbById(c, id).reg0)
 
 Init == /\ tid \in 1..Len(Traces)
         /\ l = 1
         /\ mcalls = <<>> /\ missued = <<>> /\ mwire = <<>> /\ mdown = <<>> /\ mrxs = <<>> /\ mgots = <<>>
+        /\ mregs = Reg0(Traces[tid].cfg)
         /\ bad = "ok" /\ badAt = 0
         /\ conf = TRUE /\ confAt = 0
         /\ cf = Traces[tid].cfg
@@ -70,6 +76,7 @@ Init == /\ tid \in 1..Len(Traces)
         /\ inq = <<>>
         /\ dpc = "recv" /\ snap = <<>> /\ dpk = [chan |-> 0, data |-> <<>>]
         /\ cache = Traces[tid].cfg.init
+        /\ regs = Reg0(Traces[tid].cfg)
         /\ nextRid = 1 /\ nnotif = 0 /\ ndup = 0
         /\ calls = <<>> /\ issued = <<>> /\ wire = <<>> /\ down = <<>> /\ rxs = <<>> /\ gots = <<>>
 
@@ -78,11 +85,11 @@ Fail(c) == IF bad = "ok" /\ c # "ok" THEN bad' = c /\ badAt' = l ELSE UNCHANGED 
 \* ------------------------------------------------------------------ binding: history equality
 TypeOfP(p) == T.cfg.type[p]
 SameVal(p, mv, dv) == P!SameTyped(TypeOfP(p), mv, dv.b)
-SameUpd(mu, du) == /\ mu.cb = du.cb /\ mu.p = du.p
+SameUpd(mu, du) == /\ mu.cb = du.cb /\ mu.p = du.p /\ mu.ops = du.ops
                    /\ SameVal(du.p, mu.arg, du.arg) /\ SameVal(du.p, mu.cache, du.cache) /\ SameVal(du.p, mu.get, du.get)
 SameRx(mr, dr) == /\ mr.chan = dr.chan /\ mr.data = dr.data
                   /\ Len(mr.upds) = Len(dr.upds) /\ \A i \in DOMAIN mr.upds : SameUpd(mr.upds[i], dr.upds[i])
-                  /\ mr.cbs = dr.cbs
+                  /\ mr.cbs = dr.cbs /\ mr.before = dr.before
 SameCall(mc, dc) == /\ mc.rid = dc.rid /\ mc.u = dc.u /\ mc.k = dc.k /\ mc.p = dc.p
                     /\ (mc.exc = "") = (dc.exc = "") /\ mc.done = dc.done
 SameGot(mg, dg) == mg.rid = dg.rid /\ mg.p = dg.p /\ mg.nrx = dg.nrx /\ SameVal(dg.p, mg.val, dg.val)
@@ -105,6 +112,8 @@ EStep == /\ Ev.e = "step"
               [] Ev.a = "UPut" -> Conform(D!UPut(Ev.u))
               [] Ev.a = "UpdGet" -> Conform(D!UpdGet)
               [] Ev.a = "UpdLock" -> Conform(D!UpdLock)
+              [] Ev.a = "UpdLockTimeout" -> Conform(D!UpdLockTimeout)
+              [] Ev.a \in {"Tick", "DispIdle"} -> Conform(UNCHANGED specvars)    \* time passes / the 1 s poll comes back empty
               [] Ev.a = "UpdSend" -> Conform(D!UpdSend)
               [] Ev.a = "UpdDone" -> Conform(D!UpdDone)
               [] Ev.a = "DevAnswer" -> Conform(D!DevAnswer)
@@ -124,44 +133,51 @@ NAns == Cardinality({i \in DOMAIN mdown : mdown[i].kind = "ans"})
 ECall == /\ Ev.e = "call"
          /\ mcalls' = Append(mcalls, [rid |-> Ev.rid, u |-> Ev.u, k |-> Ev.k, p |-> Ev.p, v |-> Ev.v,
                                       exc |-> "", done |-> FALSE])
-         /\ UNCHANGED <<missued, mwire, mdown, mrxs, mgots, bad, badAt>> /\ Keep
+         /\ UNCHANGED <<missued, mwire, mdown, mrxs, mgots, mregs, bad, badAt>> /\ Keep
 EIssue == /\ Ev.e = "issue"
           /\ missued' = Append(missued, [rid |-> Ev.rid, chan |-> Ev.chan, data |-> Ev.data])
-          /\ UNCHANGED <<mcalls, mwire, mdown, mrxs, mgots, bad, badAt>> /\ Keep
+          /\ UNCHANGED <<mcalls, mwire, mdown, mrxs, mgots, mregs, bad, badAt>> /\ Keep
 ERet == /\ Ev.e = "ret"
         /\ LET i == CallIdx(Ev.rid)
                c == [mcalls[i] EXCEPT !.exc = Ev.exc, !.done = TRUE]
            IN /\ mcalls' = [mcalls EXCEPT ![i] = c]
               /\ Fail(P!CallClause(T.cfg, c, missued))
-        /\ UNCHANGED <<missued, mwire, mdown, mrxs, mgots>> /\ Keep
+        /\ UNCHANGED <<missued, mwire, mdown, mrxs, mgots, mregs>> /\ Keep
 EGot == /\ Ev.e = "got"
         /\ mgots' = Append(mgots, [rid |-> Ev.rid, p |-> Ev.p, val |-> Ev.val, nrx |-> Ev.nrx])
         /\ Fail(IF Ev.nrx # Len(mrxs) THEN "TraceMalformed"
                 ELSE P!FreshClause(T.cfg, Ev.p, Ev.val, mdown, Ev.nrx))
-        /\ UNCHANGED <<mcalls, missued, mwire, mdown, mrxs>> /\ Keep
+        /\ UNCHANGED <<mcalls, missued, mwire, mdown, mrxs, mregs>> /\ Keep
 ETx == /\ Ev.e = "tx"
        /\ LET w2 == Append(mwire, [chan |-> Ev.chan, data |-> Ev.data, nans |-> NAns])
           IN mwire' = w2 /\ Fail(P!WireClause(missued, w2))
-       /\ UNCHANGED <<mcalls, missued, mdown, mrxs, mgots>> /\ Keep
+       /\ UNCHANGED <<mcalls, missued, mdown, mrxs, mgots, mregs>> /\ Keep
 EDown == /\ Ev.e \in {"ans", "ntf", "dup"}
          /\ mdown' = Append(mdown, [kind |-> Ev.e, chan |-> Ev.chan, data |-> Ev.data,
                                     w |-> IF Ev.e = "ntf" THEN 0 ELSE Ev.w])
-         /\ UNCHANGED <<mcalls, missued, mwire, mrxs, mgots, bad, badAt>> /\ Keep
+         /\ UNCHANGED <<mcalls, missued, mwire, mrxs, mgots, mregs, bad, badAt>> /\ Keep
 ERx == /\ Ev.e = "rx"
        /\ Fail(LastRxClause)                       \* the previous dispatch is over now
-       /\ mrxs' = Append(mrxs, [chan |-> Ev.chan, data |-> Ev.data, upds |-> <<>>, cbs |-> <<>>])
-       /\ UNCHANGED <<mcalls, missued, mwire, mdown, mgots>> /\ Keep
+       /\ mrxs' = Append(mrxs, [chan |-> Ev.chan, data |-> Ev.data, upds |-> <<>>, cbs |-> <<>>, before |-> mregs])
+       /\ UNCHANGED <<mcalls, missued, mwire, mdown, mgots, mregs>> /\ Keep
+\* the registrations after a callback performed ops
+RECURSIVE ApplyOps(_, _, _)
+ApplyOps(rg, ops, i) ==
+    IF i > Len(ops) THEN rg
+    ELSE ApplyOps(IF ops[i][1] = "remove" THEN SelectSeq(rg, LAMBDA x : x # ops[i][2]) ELSE Append(rg, ops[i][2]), ops, i + 1)
 EUpd == /\ Ev.e = "upd"
         /\ IF mrxs = <<>> THEN Fail("SpuriousUpdate") /\ UNCHANGED mrxs
            ELSE /\ mrxs' = [mrxs EXCEPT ![Len(mrxs)].upds =
-                              Append(@, [cb |-> Ev.cb, p |-> Ev.p, arg |-> Ev.arg, cache |-> Ev.cache, get |-> Ev.get])]
+                              Append(@, [cb |-> Ev.cb, p |-> Ev.p, arg |-> Ev.arg, cache |-> Ev.cache, get |-> Ev.get,
+                                         ops |-> Ev.ops])]
                 /\ UNCHANGED <<bad, badAt>>
+        /\ mregs' = ApplyOps(mregs, Ev.ops, 1)
         /\ UNCHANGED <<mcalls, missued, mwire, mdown, mgots>> /\ Keep
 ECb == /\ Ev.e = "cb"
        /\ IF mrxs = <<>> THEN Fail("ReplyToOtherRequest") /\ UNCHANGED mrxs
           ELSE /\ mrxs' = [mrxs EXCEPT ![Len(mrxs)].cbs = Append(@, [rid |-> Ev.rid, pay |-> Ev.pay])]
                /\ UNCHANGED <<bad, badAt>>
-       /\ UNCHANGED <<mcalls, missued, mwire, mdown, mgots>> /\ Keep
+       /\ UNCHANGED <<mcalls, missued, mwire, mdown, mgots, mregs>> /\ Keep
 EExt == /\ Ev.e = "ext"
         /\ Fail(P!ExtClause(Ev.dev, Ev.lib))
         /\ UNCHANGED monvars /\ Keep
